@@ -75,6 +75,7 @@ pub fn cli_main(machines: Vec<Box<dyn Machine>>, enums: Vec<Box<dyn EnumMachine>
                 families: get("--families", "").split(',').filter(|s| !s.is_empty()).map(|s| s.to_string()).collect(),
                 kinds: get("--kinds", ""),
                 strict_storage: get("--strict-storage", "0") == "1",
+                panic_only: get("--panic-only", "0") == "1",
             };
             sweep::sweep(&paired, &cfg)
         }
